@@ -369,6 +369,17 @@ def loader_tasks(case, root, cache_dir, link):
                 f.write(shapely.ops.unary_union([shapely.geometry.box(*c) for c in boxes]).wkt + '\n')
             seed['coverages'] = {'cov': {'datasource': wkt, 'srs': 'EPSG:3857'}}
         cl['coverages'] = ['cov']
+    if t.get('skip'):
+        # a named coverage that is empty at run time (a GeoJSON file without features): the task must be skipped,
+        # whether it is the only coverage of the task or one of several
+        empty = os.path.join(root, 'empty.geojson')
+        with open(empty, 'w') as f:
+            f.write('{"type": "FeatureCollection", "features": []}')
+        seed.setdefault('coverages', {})['nothing'] = {'datasource': empty, 'srs': 'EPSG:3857'}
+        cl['coverages'] = (cl.get('coverages', []) + ['nothing']) if t['skip'] == 'mixed' else ['nothing']
+        if t['skip'] == 'mixed' and 'cov' not in seed['coverages']:
+            seed['coverages']['cov'] = {'bbox': list(t['cov']), 'srs': 'EPSG:3857'}
+            cl['coverages'] = ['cov', 'nothing']
     mpf, sf = os.path.join(root, 'mapproxy.yaml'), os.path.join(root, 'seed.yaml')
     with open(mpf, 'w') as f:
         yaml.safe_dump(mp, f)
@@ -590,6 +601,13 @@ def oracle(ctx, case, obs):
         ctx.fail('cleanup-raised,backend=%s' % b.split(':')[0], 'cleanup() raised %s' % obs['raised'], rep)
         return
     T = t['T']
+    if t.get('skip'):
+        for e, alive in zip(case['entries'], obs['survived']):
+            if not alive:
+                ctx.fail('removed-too-much,strategy=skip', 'a cleanup task whose coverage is empty (nothing to clean) removed %r '
+                         '(levels %r, remove_all %s)' % (e, t['levels'], t['all']), rep)
+                return
+        return
     for e, alive in zip(case['entries'], obs['survived']):
         if e['kind'] != 'tile':
             inside_selected = False
@@ -669,7 +687,8 @@ def case_lit(case, obs):
     t = case['task']
     pyr = '(mkPyr %s %s %s %s (%s, %s))' % (zlit(bbox[0]), zlit(bbox[1]), llit(spans),
                                           llit(sizes, lambda s: '(%d, %d)' % s), zlit(case['meta'][0]), zlit(case['meta'][1]))
-    task = '(mkTask %s %s %s %s false)' % (llit(t['levels']), zlit(t['T']), blit(t['all']), blit(t['complete']))
+    task = '(mkTask %s %s %s %s %s)' % (llit(t['levels']), zlit(t['T']), blit(t['all']), blit(t['complete']),
+                                        {None: 'false', 'only': '(conf_skip [true])', 'mixed': '(conf_skip [false; true])'}[t.get('skip')])
     cov = boxes_lit(t)
     walked = llit(obs['walked'], lambda c: '(%s, %s, %s)' % (zlit(c[0]), zlit(c[1]), zlit(c[2])))
     surv = obs['survived'] if not obs['raised'] else [not s for s in obs['survived']] + [True]   # cannot match
@@ -1086,7 +1105,7 @@ def run_cases(ctx, cases, tag, budget=None):
             any(abs(e['t'] - t['T']) <= Q for e, _ in tiles)
         ctx.case(json.dumps(case, sort_keys=True), nontrivial,
                  {'case': case, 'survived': obs['survived'], 'walked': obs['walked'][:12]})
-        strat = strategy_of(case['backend'], t['complete'])
+        strat = 'skip' if t.get('skip') else strategy_of(case['backend'], t['complete'])
         ctx.count('backend=' + case['backend'])
         ctx.count('strategy=' + strat)
         ctx.count('remove_all=%s' % t['all'])
@@ -1187,6 +1206,11 @@ def run(ctx):
         lcases.append(gen_case(rng, backend=rng.choice(['file:tc', 'file:mp', 'file:tms', 'file:quadkey', 'file:arcgis',
                                                         'sqlite', 'gpkglevel', 'compact2']),
                                grid=rng.choice(['g3', 'g4w', 'odd'])))
+    for b in ('file:tc', 'sqlite', 'file:quadkey', 'compact2'):
+        for mode, complete in (('only', True), ('mixed', False), ('only', False)):
+            c = gen_case(rng, backend=b, grid=rng.choice(['g3', 'g4w', 'odd']), force={'complete': complete})
+            c['task']['skip'] = mode
+            lcases.append(c)
     for c in lcases:
         c['via_loader'] = True
         c.pop('tz', None)
